@@ -107,6 +107,7 @@ type fctx struct {
 	retParts   []*aval
 	tupleParts map[ssa.Value][]*aval
 	depth      int
+	abortRet   func(*ssa.Return) bool // returns after which the caller of this activation gives up
 }
 
 // storeEvent records one abstract store.
@@ -550,11 +551,68 @@ func (it *flowAnalysis) structCopyQuiet(from, to *aval) {
 }
 
 func (it *flowAnalysis) context(fn *ssa.Function, key string, depth int) *fctx {
+	return it.contextAbort(fn, key, depth, nil)
+}
+
+// abortValueAt: site is a call with a single boolean result that the caller only branches on, and the
+// edge taken for one of the two values leads only to the caller's own abort returns ("if !c.addInner(…)
+// { return nil, err }"): that value. A return of the callee with that constant is then an abort return of
+// this activation — the same termination-insensitive reading as for "return nil, err" itself.
+func (it *flowAnalysis) abortValueAt(c *fctx, site ssa.CallInstruction) (bool, bool) {
+	call, ok := site.(*ssa.Call)
+	if !ok || !isBoolType(call.Type()) || call.Referrers() == nil {
+		return false, false
+	}
+	ar := c.abortRet
+	if ar == nil {
+		ar = it.abortRet
+	}
+	_, abortOnly := postDom(c.fn, ar)
+	found, val := false, false
+	for _, ref := range *call.Referrers() {
+		switch x := ref.(type) {
+		case *ssa.DebugRef:
+			continue
+		case *ssa.If:
+			b := x.Block()
+			t, f := abortOnly[b.Succs[0].Index], abortOnly[b.Succs[1].Index]
+			if t == f {
+				return false, false
+			}
+			v := t // the value whose edge aborts
+			if found && v != val {
+				return false, false
+			}
+			found, val = true, v
+		default:
+			return false, false
+		}
+	}
+	return val, found
+}
+
+func (it *flowAnalysis) contextAbort(fn *ssa.Function, key string, depth int, abortVal *bool) *fctx {
 	k := key + "|" + fn.String()
 	c := it.ctxs[k]
 	if c == nil {
 		c = &fctx{fn: fn, key: k, vals: map[ssa.Value]*aval{}, ctl: lset{}, ret: newAval(), depth: depth}
-		c.cdeps = controlDeps(fn, it.abortRet)
+		c.abortRet = it.abortRet
+		if abortVal != nil {
+			av := *abortVal
+			base := it.abortRet
+			c.abortRet = func(r *ssa.Return) bool {
+				if base != nil && base(r) {
+					return true
+				}
+				if len(r.Results) == 1 {
+					if cv, ok := constBool(r.Results[0]); ok && cv == av {
+						return true
+					}
+				}
+				return false
+			}
+		}
+		c.cdeps = controlDeps(fn, c.abortRet)
 		it.ctxs[k] = c
 		it.order = append(it.order, k)
 		it.changed = true
@@ -1125,7 +1183,11 @@ func (it *flowAnalysis) call(c *fctx, site ssa.CallInstruction, ctl lset) {
 			it.recursed = append(it.recursed, callee.String()+" at "+it.p.Pos(site.Pos()))
 			return
 		}
-		cc := it.context(callee, ckey, c.depth+1)
+		var abortVal *bool
+		if av, ok := it.abortValueAt(c, site); ok {
+			abortVal = &av
+		}
+		cc := it.contextAbort(callee, ckey, c.depth+1, abortVal)
 		if cc.ctl.addAll(stripKB(ctl)) {
 			it.changed = true
 			it.lastChange = "L801"
